@@ -208,8 +208,8 @@ func rootToken(fn *ssa.Function, v ssa.Value, depth int) string {
 
 func fieldName(fa *ssa.FieldAddr) string {
 	if pt, ok := fa.X.Type().Underlying().(*types.Pointer); ok {
-		if st, ok := pt.Elem().Underlying().(*types.Struct); ok {
-			return st.Field(fa.Field).Name()
+		if _, ok := pt.Elem().Underlying().(*types.Struct); ok {
+			return fieldNameAt(pt.Elem(), fa.Field)
 		}
 	}
 	return "?"
